@@ -338,7 +338,10 @@ def c05_findings(rv, ev, rec, prev_cache):
             told = v.get(f)
             if told is not None:
                 same = (told == cv) if f in ('cpus', 'mems') else (told == cv or (cv == 0 and told is None))
-                if not same and f == 'cpus' and cv == '':
+                if not same and f == 'mems' and cv == '':
+                    out.append(F('C05', 'view-eq-cache', 'cache-mems-emptied',
+                                 '%s: container %s cache mems became empty (memory pinning switched off), the runtime still has %r' % (op, cid, told), seq))
+                elif not same and f == 'cpus' and cv == '':
                     # an empty cpuset cannot be expressed in an NRI update (empty = unchanged): consequence of K2
                     out.append(F('C05', 'view-eq-cache', 'cache-cpuset-emptied',
                                  '%s: container %s cache cpuset became empty, the runtime still has %r' % (op, cid, told), seq))
